@@ -77,7 +77,7 @@ func checkC17(c *Ctx) {
 	}
 	gens := []func(*rand.Rand) []bt.Op{
 		func(r *rand.Rand) []bt.Op { return genMutationProgram(r, 20+r.Intn(25)) },
-		genRmwProgram, genCamProgram, genAdminProgram, genGcProgram, genFilterProgramS(3, 0) /* no row-sample filters: their outcome is random */, genEarlyStopProgram, genEarlyStopProgram, genRowSetProgram,
+		genRmwProgram, genCamProgram, genAdminProgram, genGcProgram, genFilterProgramS(3, 0) /* no row-sample filters: their outcome is random */, genEarlyStopProgram, genEarlyStopProgram, genRowSetProgram, genPrefixDropProgram,
 	}
 	var progs [][]bt.Op
 	for _, g := range gens {
